@@ -8,6 +8,8 @@ SCRATCH = os.environ.get("MUTANT_REPO", "/tmp/mrepo")
 EXTRA = {  # additional checks worth trying for a seed (cross-detection)
     "C01-A": ["C13"], "C01-B": [], "C19-B": ["C01"], "C02-A": ["C09"], "C10-A": ["C09"], "C07-B": ["C05"],
     "C10-B": [], "C11-A": ["C07"], "C01-C": ["C02", "C09"], "C02-F": ["C10"], "C04-E": ["C10"], "C07-F": ["C06"],
+    "C01-G": ["C02", "C09"], "C02-G": ["C09"], "C09-G": ["C10"], "C10-G": ["C09"], "C19-G": ["C11"], "C07-G": ["C05"],
+    "C03-G": ["C04"], "C11-G": ["C07"],
     "C12-E": ["C09"], "C11-D": ["C19"], "C12-C": ["C09"], "C06-B": ["C07"], "C09-C": ["C02"], "C01-F": ["C09"],
 }
 
